@@ -25,7 +25,7 @@ from .mutate import apply_edit, EditError
 
 
 class V:
-    def __init__(self, kind, name, edits, expect=None, where=None, note=''):
+    def __init__(self, kind, name, edits, expect=None, where=None, note='', patch=None):
         """edits: list of (file, scope, old, new[, occurrence]); expect: rule id prefix(es) for kind F;
         where: substring that must occur in the function / construct / message of the new finding."""
         self.kind = kind
@@ -34,6 +34,7 @@ class V:
         self.expect = [expect] if isinstance(expect, str) else list(expect or [])
         self.where = where
         self.note = note
+        self.patch = patch       # path of a unified diff (seeded change) applied instead of AST edits
 
 
 def F(name, file, scope, old, new, expect, where=None, occ=0, note=''):
@@ -58,6 +59,11 @@ def _materialise(repo, dest, v):
                     ignore=shutil.ignore_patterns('__pycache__', '*.pyc'))
     if os.path.isdir(os.path.join(repo, 'docs')):
         shutil.copytree(os.path.join(repo, 'docs'), os.path.join(dest, 'docs'))
+    if v.patch:
+        r = subprocess.run(['git', 'apply', '--whitespace=nowarn', v.patch], cwd=dest, capture_output=True, text=True)
+        if r.returncode != 0:
+            raise EditError('seeded patch does not apply to the current tree: %s' % r.stderr.strip()[:120])
+        return
     for e in v.edits:
         file, scope, old, new = e[:4]
         occ = e[4] if len(e) > 4 else 0
@@ -134,13 +140,34 @@ def run_variants(prop, variants, repo, base_keys, jobs=16, keep=None):
     return results
 
 
+def seeded_variants(prop):
+    """the confirmed seeded changes kept under /verif/seeded whose meta.json names this property: each must fire."""
+    out = []
+    root = os.path.join(VERIF, 'seeded')
+    if not os.path.isdir(root):
+        return out
+    for d in sorted(os.listdir(root)):
+        mp, pp = os.path.join(root, d, 'meta.json'), os.path.join(root, d, 'patch.diff')
+        if not (os.path.exists(mp) and os.path.exists(pp)):
+            continue
+        try:
+            with open(mp) as fh:
+                meta = json.load(fh)
+        except ValueError:
+            continue
+        if meta.get('property') == prop or prop in meta.get('also_detected_by', []):
+            out.append(V('F', 'seeded/%s' % d, [], expect=[prop], patch=pp, note=(meta.get('summary') or '')[:120]))
+    return out
+
+
 def load_variants(prop):
     import importlib
     try:
         mod = importlib.import_module('sgzlint.variants.' + prop.lower())
+        vs = list(mod.VARIANTS)
     except ModuleNotFoundError:
-        return []
-    return list(mod.VARIANTS)
+        vs = []
+    return vs + seeded_variants(prop)
 
 
 def run(ctx):
